@@ -216,8 +216,15 @@ func pipeResultReader(message any, reader *messages.Reader, codec messages.Codec
 	var errorCode int32
 	var errorMessage string
 
-	if m.Message, err = reader.ReadMessage(codec); err != nil {
+	// 失败结果不携带消息：先读取存在标记，仅在存在时读取嵌套消息
+	var hasMessage bool
+	if err = reader.ReadInto(&hasMessage); err != nil {
 		return err
+	}
+	if hasMessage {
+		if m.Message, err = reader.ReadMessage(codec); err != nil {
+			return err
+		}
 	}
 
 	if err = reader.ReadInto(&m.Id, &errorCode, &errorMessage); err != nil {
@@ -249,8 +256,16 @@ func pipeResultReader(message any, reader *messages.Reader, codec messages.Codec
 func pipeResultWriter(message any, writer *messages.Writer, codec messages.Codec) (err error) {
 	m := message.(*PipeResult)
 
-	if err = writer.WriteMessage(m.Message, codec); err != nil {
+	// 失败结果的 Message 为 nil：nil 消息没有描述符，只能走外部编解码器路径，未配置 Codec 时无法编码，
+	// 因此以存在标记表示，仅在存在时写入嵌套消息
+	hasMessage := m.Message != nil
+	if err = writer.WriteFrom(hasMessage); err != nil {
 		return err
+	}
+	if hasMessage {
+		if err = writer.WriteMessage(m.Message, codec); err != nil {
+			return err
+		}
 	}
 
 	var errorCode int32
